@@ -11,7 +11,9 @@ META = {
                  "nsqlookupd instances behind fault proxies (close, stall, garbage, negative/oversized length prefix, "
                  "cut, restart-empty) under topic/channel churn with a live publish/consume stream, convergence read from "
                  "lookupd /debug; the notification reordering TLC finds forced through the notify yield point; "
-                 "pre-created channels receive the first message",
+                 "pre-created channels receive the first message (LookupPre, TLAPS proof for any number of nsqlookupds; also with "
+                 "the connection just dropped, and with one nsqlookupd's HTTP side silent / stalling / dripping / garbage); "
+                 "the nsqlookupd list reconfigured at run time (LookupPeers)",
     "design_ref": "5/C16",
 }
 
